@@ -2,6 +2,7 @@ package base
 
 import (
 	"fmt"
+	"strings"
 
 	"github.com/relex/gotils/promexporter/promext"
 	"github.com/relex/gotils/promexporter/promreg"
@@ -63,6 +64,20 @@ func VerifyMetricKeyFields(fieldNames []string) error {
 		seen[name] = struct{}{}
 	}
 	return nil
+}
+
+// MetricLabelValues returns the given field values in a form that is usable as metric label values.
+//
+// Field values come from log records and may contain any bytes, but label values that are not valid UTF-8 make the
+// metric registry panic when a labelled counter is created, or make every later metric collection fail when they
+// are fixed labels of a metric creator. Invalid bytes are removed (as util.CleanUTF8 does); valid values are returned
+// as they are.
+func MetricLabelValues(fieldValues []string) []string {
+	labelValues := make([]string, len(fieldValues))
+	for i, value := range fieldValues {
+		labelValues[i] = strings.ToValidUTF8(value, "")
+	}
+	return labelValues
 }
 
 // NewLogProcessCounter creates a LogProcessCounter
@@ -141,17 +156,18 @@ func (pcounter *LogProcessCounterSet) SelectMetricKeySet(record *LogRecord) *Log
 		// copy transient field values from record for storing into map and counters
 		permKeys := util.DeepCopyStrings(tempKeys)
 		permMergedKey := util.DeepCopyStringFromBytes(tempMergedKey)
+		labelValues := MetricLabelValues(permKeys)
 		customCounters := make([]*logCustomCounterImpl, len(pcounter.customCounterVecMap))
 		for _, vec := range pcounter.customCounterVecMap {
 			customCounters[vec.index] = &logCustomCounterImpl{
-				countMetric:     vec.countMetricVec.WithLabelValues(permKeys...),
-				lengthMetric:    vec.lengthMetricVec.WithLabelValues(permKeys...),
+				countMetric:     vec.countMetricVec.WithLabelValues(labelValues...),
+				lengthMetric:    vec.lengthMetricVec.WithLabelValues(labelValues...),
 				unwrittenCount:  0,
 				unwrittenLength: 0,
 			}
 		}
 		pair = logKeySetCounterPair{
-			inputCounter:   NewLogInputCounter(pcounter.factory.AddOrGetPrefix("", pcounter.metricKeyNames, permKeys)),
+			inputCounter:   NewLogInputCounter(pcounter.factory.AddOrGetPrefix("", pcounter.metricKeyNames, labelValues)),
 			customCounters: customCounters,
 		}
 		pcounter.keySetPairs[permMergedKey] = pair
